@@ -173,40 +173,70 @@ def check_wake(ctx, P):
         o.ok("stack-resident types: %s" % sorted(sr))
 
 
+def timer_reads(fn):
+    isread = lambda c: c.k == "CallExpr" and ((c.indirect and fn.key(c.kids[0]) == ("glob", "fibershim_read")) or c.callee in ("read", "fibershim_read"))
+    return [c for c in fn.calls(pred=isread) if len(fn.args(c)) >= 3 and fn.key(fn.args(c)[0], True) == ("glob", "timer_fd")]
+
+
 def check_wake_count(ctx, P):
-    pi = P.fn("fiber_poll_events_internal")
-    o = ctx.ob("wake.count", pi, "the number of ticks handed to fiber_event_wake_sleepers is the expiration count read from the timer descriptor, and the call is "
-               "made only when that read returned a whole count (8 bytes)",
-               "a tick invented on the path where another poller already drained the timer counts the same expiration twice: the sleep clock runs ahead of "
-               "real time and sub-tick sleeps return early")
-    ws = pi.calls("fiber_event_wake_sleepers")
-    if not ws:
-        raise AnalysisBroken("fiber_poll_events_internal: no call of fiber_event_wake_sleepers")
+    ws = P.fn("fiber_event_wake_sleepers")
+    o = ctx.ob("wake.count", ws, "the expirations are read from the timer descriptor and added to timer_trigger_count inside ONE sleep_spinlock critical section "
+               "(in fiber_event_wake_sleepers), only when the read returned a whole 8-byte count, with coefficient one; callers pass no count of their own",
+               "between a read and the update of the counter the expirations exist only in one kernel thread's local variable: a sleeper that registers in "
+               "between (its own read finds the timer empty) is credited with them afterwards and wakes early; a tick invented on a failed read counts an "
+               "expiration twice")
     bad = None
-    isread = lambda c: c.k == "CallExpr" and ((c.indirect and pi.key(c.kids[0]) == ("glob", "fibershim_read")) or c.callee in ("read", "fibershim_read"))
-    for w in ws:
-        a = strip(pi.args(w)[1])
-        if not (a is not None and a.k == "DeclRefExpr" and a.dk == "local" and a.did):
-            bad = bad or ("the tick argument `%s` is not the count read from the timer" % pi.args(w)[1].text, w)
-            continue
-        evs_ = pi.defs().get(a.did, [])
-        reads = [e[1] for e in evs_ if e[0] == "addr" and isread(e[1])]
-        other = [e for e in evs_ if e[0] in ("assign", "mod") or (e[0] == "init" and strip(e[2]).cv != 0) or (e[0] == "addr" and not isread(e[1]))]
-        if not reads:
-            bad = bad or ("`%s` is never filled by a read of the timer descriptor" % a.name, w)
-            continue
-        if other:
-            bad = bad or ("`%s` is also set by `%s`, not only by the read of the timer descriptor" % (a.name, other[0][1].text[:50]), other[0][1])
-        for r in reads:
-            ra = pi.args(r)
-            if len(ra) < 3 or ra[2].cv != 8 or pi.key(ra[0], True) != ("glob", "timer_fd"):
-                bad = bad or ("`%s` does not read one 8-byte count from timer_fd" % r.text[:60], r)
-            for rv in (-1, 0, 4, 8):
-                got = reach(pi, [w], atom_from([(lambda n, r=r: n is r, rv)]), start=r)
-                if got != (rv == 8):
-                    bad = bad or ("after the timer read returned %d, fiber_event_wake_sleepers is %s" % (rv, "called" if got else "not called"), w)
-    o.check(bad is None, "%d wake call(s), count from a complete read" % len(ws), bad[0] if bad else None, site=bad[1] if bad else None,
-            construct="tick count not from the timer read")
+    reads = timer_reads(ws)
+    locks = [c for c in ws.calls(LOCK) if sleep_lock(ws, c)]
+    unl = [c for c in ws.calls(UNLOCK) if sleep_lock(ws, c)]
+    tc = [s_ for s_ in ws.stores() if ws.target_key(s_.target) == ("glob", "timer_trigger_count")]
+    if not reads:
+        bad = ("fiber_event_wake_sleepers does not read the timer descriptor itself: the count comes from outside its critical section", ws.loc)
+    elif len(tc) != 1 or not locks:
+        raise AnalysisBroken("wake_sleepers: counter update / lock not recognised")
+    else:
+        r = reads[0]
+        if len(reads) != 1 or ws.args(r)[2].cv != 8:
+            bad = bad or ("expected one 8-byte read of timer_fd", r)
+        w = c01.held_lock_ok(ws, r, locks, unl)
+        if w is not None:
+            bad = bad or ("the timer is read without sleep_spinlock held", r)
+        if ws.find_path(r, lambda n: n is tc[0].node, barrier=nodeset(unl)) is None or ws.find_path(r, nodeset(unl), barrier=lambda n: n is tc[0].node) is not None:
+            bad = bad or ("the lock can be released between the read of the timer and the update of the counter", r)
+        # the local filled by the read, credited only after a complete read, with coefficient one
+        out = strip(ws.args(r)[1])
+        L = strip(out.kids[0]) if out is not None and out.k == "UnaryOperator" and out.op == "&" else None
+        if L is None or L.k != "DeclRefExpr" or not L.did:
+            bad = bad or ("the read does not fill a local count", r)
+        else:
+            uses = [s_ for s_ in ws.stores() if s_.value is not None and any(m.k == "DeclRefExpr" and m.did == L.did for m in s_.value.walk())]
+            for s_ in uses:
+                if not (s_.kind == "compound" and s_.aop == "+=" and strip(s_.value).k == "DeclRefExpr" and strip(s_.value).did == L.did):
+                    bad = bad or ("the count read is not added as it is: `%s`" % s_.node.text, s_.node)
+                for rv in (-1, 0, 4, 8):
+                    got = reach(ws, [s_.node], atom_from([(lambda n: n is r, rv)]), start=r)
+                    if got != (rv == 8):
+                        bad = bad or ("after the timer read returned %d the count is %s credited" % (rv, "" if got else "not"), s_.node)
+            if not uses:
+                bad = bad or ("the count read from the timer is never added to the tick counter", r)
+            # nothing else is added: the value that reaches the counter is the parameter plus the count read
+            tv = strip(tc[0].value) if tc[0].value is not None else None
+            if tv is not None and tv.k == "DeclRefExpr" and tv.did:
+                for s_ in ws.stores():
+                    tk_ = ws.target_key(s_.target)
+                    if tk_[0] == "var" and tk_[2] == tv.did and s_ not in uses:
+                        bad = bad or ("`%s` adds something that was not read from the timer" % s_.node.text, s_.node)
+            other = [e for e in ws.defs().get(L.did, []) if e[0] in ("assign", "mod") or (e[0] == "init" and strip(e[2]).cv != 0)]
+            if other:
+                bad = bad or ("`%s` is also set by `%s`" % (L.name, other[0][1].text[:50]), other[0][1])
+    n = 0
+    for fn, c in P.callers_of("fiber_event_wake_sleepers"):
+        n += 1
+        a = fn.args(c)[1]
+        if reads and a.cv != 0:
+            bad = bad or ("`%s` in %s hands in a count of its own (read outside the critical section)" % (c.text[:60], fn.name), c)
+    o.check(bad is None, "read+credit under the lock; %d call sites pass 0" % n, bad[0] if bad else None, site=bad[1] if bad else None,
+            construct="tick count not read and credited atomically")
 
 
 def check_poll_idle(ctx, P):
@@ -235,39 +265,21 @@ def check_poll_idle(ctx, P):
 
 def check_backlog(ctx, P):
     fs = P.fn("fiber_sleep")
-    o = ctx.ob("early.backlog", fs, "before fiber_sleep computes its deadline it brings the tick counter up to date: it reads the timer descriptor and hands the "
-               "count to fiber_event_wake_sleepers (expirations nobody has read yet happened *before* this sleep began)",
+    o = ctx.ob("early.backlog", fs, "before fiber_sleep computes its deadline it brings the tick counter up to date: a call of fiber_event_wake_sleepers (which reads "
+               "the timer descriptor and credits the count under the lock) lies on every path to the deadline computation",
                "the timer descriptor accumulates expirations while no thread polls (every kernel thread busy with fibers that do not yield): the next poller "
                "adds the whole backlog to the counter after the sleeper has registered, and a 50 ms sleep that follows 400 ms of computation returns at once")
     st = [s_ for s_ in fs.stores_to("waiter_el", "wake_time")]
-    isread = lambda c: c.k == "CallExpr" and ((c.indirect and fs.key(c.kids[0]) == ("glob", "fibershim_read")) or c.callee in ("read", "fibershim_read"))
-    reads = [c for c in fs.calls(pred=isread) if len(fs.args(c)) >= 3 and fs.key(fs.args(c)[0], True) == ("glob", "timer_fd")]
-    bad = None
     if not st:
         raise AnalysisBroken("fiber_sleep: wake_time store not found")
-    if not reads:
-        bad = ("fiber_sleep never reads the timer descriptor: unread expirations from before the call are credited to this sleeper", st[0].node, None)
+    drains = fs.calls("fiber_event_wake_sleepers") if timer_reads(P.fn("fiber_event_wake_sleepers")) else []
+    bad = None
+    if not drains:
+        bad = ("fiber_sleep does not drain the timer descriptor: unread expirations from before the call are credited to this sleeper", st[0].node, None)
     else:
-        w = fs.dominated_by(st[0].node, nodeset(reads))
+        w = fs.dominated_by(st[0].node, nodeset(drains))
         if w is not None:
             bad = ("the deadline is computed on a path that has not drained the timer descriptor", st[0].node, w)
-        ws = fs.calls("fiber_event_wake_sleepers")
-        ok = False
-        for r in reads:
-            outs = [strip(a) for a in fs.args(r)[1:2]]
-            tgt = strip(outs[0].kids[0]) if outs and outs[0].k == "UnaryOperator" and outs[0].op == "&" else None
-            for wcall in ws:
-                a = strip(fs.args(wcall)[1])
-                if tgt is not None and a.k == "DeclRefExpr" and a.did == tgt.did:
-                    for rv in (-1, 8):
-                        if reach(fs, [wcall], atom_from([(lambda n, r=r: n is r, rv)]), start=r) != (rv == 8):
-                            bad = bad or ("after the drain read returned %d the count is %s handed to fiber_event_wake_sleepers" % (rv, "not" if rv == 8 else ""), wcall, None)
-                    # a complete read: the count reaches the counter before the deadline is computed
-                    if reach(fs, [st[0].node], atom_from([(lambda n, r=r: n is r, 8)]), start=r, barrier=nodeset([wcall])):
-                        bad = bad or ("after a complete drain read the deadline can be computed before the count was handed to fiber_event_wake_sleepers", st[0].node, None)
-                    ok = True
-        if not ok:
-            bad = bad or ("the count read from the timer is not handed to fiber_event_wake_sleepers before the deadline is computed", reads[0], None)
     o.check(bad is None, "drain before deadline", bad[0] if bad else None, site=bad[1] if bad else None, witness=bad[2] if bad else None,
             construct="deadline computed over an unread timer backlog")
 
